@@ -28,7 +28,7 @@ def weights(draw, m, nrows):
 @st.composite
 def fit_case(draw, accuracy=None):
     shape = draw(st.sampled_from([None, None, "under", "exact", "over"]))
-    sysd = draw(matrix_system(m=(1, 5), n=(1, 8), shape=shape))
+    sysd = draw(matrix_system(m=(1, 5), n=(1, 8), shape=shape, lb_kinds=("zero", "zero", "zero", "pos", "pos", "mixed-sign")))
     sysd, _prop = draw(proportional_variant(sysd, one_in=6))
     rows = draw(target_rows(sysd, ["interior", "interior", "facet", "vertex", "near_in", "near_out", "outside", "scaled_out", "below", "below", "random", "dark"], nrows=(1, 4)))
     if draw(st.integers(0, 3)) == 0:
